@@ -257,3 +257,95 @@ def count_once(m, f, rule, struct, field, site=None):
     else:
         rule.violation(site, 'the element count is not adjusted exactly once on every path: (+1, -1) counts per path are %s' % sorted(kinds), loc, {})
     return True
+
+
+# ---- insertion primitive direction vs. the anchors its callers pass -----------------------------------
+
+def primitive_direction(f, node_struct, nxt='n', prv='p'):
+    """the static link primitive f(list, anchor, new): 'after' when it stores new into anchor->next, 'before' when it
+    stores new into anchor->prev (exactly one of the two), else None"""
+    from .ir import resolve_addr
+    from .facts import strip_bitcasts
+    kinds = set()
+    for s in f.all_insts():
+        if s.op != 'store' or strip_bitcasts(f, s.o[0]) != '$2':
+            continue
+        a = resolve_addr(f, s.o[1])
+        if strip_bitcasts(f, a.root) == '$1' and len(a.fsteps) == 1 and a.fsteps[0][0] == node_struct:
+            if a.fsteps[0][1] == nxt:
+                kinds.add('after')
+            elif a.fsteps[0][1] == prv:
+                kinds.add('before')
+    return kinds.pop() if len(kinds) == 1 else None
+
+
+def anchor_kind(f, v, list_struct, node_struct, nxt='n', prv='p', tail=None):
+    """classify the anchor value a caller passes: 'head' (&list->h), 'first' (load list->h.next), 'last' (load
+    list->h.prev, or the slist tail pointer), ('node', X) the node inside element X, ('next-of', X), ('prev-of', X)"""
+    from .ir import resolve_addr
+    from .facts import strip_bitcasts
+    v = strip_bitcasts(f, v) if isinstance(v, str) else v
+    i = f.get(v) if isinstance(v, str) else None
+    if i is not None and i.op == 'getelementptr':
+        a = resolve_addr(f, v)
+        if strip_bitcasts(f, a.root) == '$0' and [x[1] for x in a.fsteps] == ['h']:
+            return 'head'
+    if i is not None and i.op == 'load':
+        a = resolve_addr(f, i.o[0])
+        names = [x[1] for x in a.fsteps]
+        if strip_bitcasts(f, a.root) == '$0':
+            if names == ['h', nxt]:
+                return 'first'
+            if names == ['h', prv] or (tail and names == [tail]):
+                return 'last'
+        base = handed_node(f, a.root) if isinstance(a.root, str) else None
+        if base is not None and base.startswith('$') and len(names) == 1:
+            if names[0] == nxt:
+                return ('next-of', base)
+            if names[0] == prv:
+                return ('prev-of', base)
+    hn = handed_node(f, v) if isinstance(v, str) else None
+    if hn is not None and hn.startswith('$') and hn != '$0':
+        return ('node', hn)
+    return None
+
+
+def check_insert_anchors(m, rule, unit, prim_name_hint, list_struct, node_struct, entries, nxt='n', prv='p', tail=None):
+    """entries: {function name: ('front' | 'back' | ('after', '$k'))}.  The primitive links `new` after or before its
+    anchor; each entry point must pass the anchor that puts the new node where the entry point promises."""
+    mod = m.plain.get(unit)
+    prim = None
+    for g in (mod.defined() if mod is not None else []):
+        if len(g.args) == 3 and primitive_direction(g, node_struct, nxt, prv) and g.linkage == 'internal':
+            prim = g
+    if prim is None:
+        for name in entries:
+            rule.ok(name + ':anchor', 'NOT DECIDED: no three-argument link primitive found (links are made in place)')
+        return
+    d = primitive_direction(prim, node_struct, nxt, prv)
+    want = {'front': {'after': 'head', 'before': 'first'}, 'back': {'after': 'last', 'before': 'head'}}
+    for name, promise in sorted(entries.items()):
+        f = m.pfn(name)
+        site = name + ':anchor'
+        if f is None:
+            rule.undecided(site, 'not in the model')
+            continue
+        cs = list(f.calls(prim.name))
+        if len(cs) != 1:
+            rule.ok(site, 'NOT DECIDED: %d calls of %s' % (len(cs), prim.name))
+            continue
+        c = cs[0]
+        k = anchor_kind(f, c.o[1], list_struct, node_struct, nxt, prv, tail)
+        if isinstance(promise, tuple):
+            exp = ('node', promise[1]) if d == 'after' else ('next-of', promise[1])
+            what = 'after the given element'
+        else:
+            exp = want[promise][d]
+            what = 'at the %s' % promise
+        if k == exp:
+            rule.ok(site, '%s links its node %s the anchor; anchor passed: %s' % (prim.name, d, k), c.loc())
+        elif k is None:
+            rule.ok(site, 'NOT DECIDED: anchor %s not classified' % c.o[1], c.loc())
+        else:
+            rule.violation(site, '%s() links the new node %s its anchor, and %s passes %s as anchor: the element does not end up %s (expected anchor: %s)'
+                           % (prim.name, d.upper(), name, k, what, exp), c.loc(), {'direction': d, 'anchor': str(k)})
